@@ -290,7 +290,10 @@ package data
 //@   assigns nothing
 //@   ensures [C02.contiguous-char] iff(r, forall(k, 0, len(nd.Dims), implies(nd.Dims[k] > 1, agree(nd.Dims, nd.OriginalDims, k+1, len(nd.Dims)) && nd.Step[k] <= 1 && nd.Offset[k] <= pfrom(nd.Dims, k+1, len(nd.Dims)))))
 //@   ensures [C02.contiguous-products] implies(r, forall(k, 0, len(nd.Dims), implies(nd.Dims[k] > 1, nd.Step[k] <= 1 && pfrom(nd.OriginalDims, k+1, len(nd.Dims)) == pfrom(nd.Dims, k+1, len(nd.Dims)) && nd.Offset[k] <= pfrom(nd.Dims, k+1, len(nd.Dims)))))
+//@   ensures [C02.contiguous-run] implies(r, forall(k, 0, len(nd.Dims), implies(nd.Dims[k] > 1 && forall(m, k+1, len(nd.Dims), nd.Dims[m] == 1), nd.Step[k] <= 1 && nd.Offset[k] <= 1)))
 //@   loop 0 invariant -1 <= i && i < len(nd.Dims)
+//@   loop 0 invariant implies(forall(m, i+1, len(nd.Dims), nd.Dims[m] == 1), contiguousOffset == 1)
+//@   loop 0 invariant forall(k, i+1, len(nd.Dims), implies(nd.Dims[k] > 1 && forall(m, k+1, len(nd.Dims), nd.Dims[m] == 1), nd.Step[k] <= 1 && nd.Offset[k] <= 1))
 //@   loop 0 invariant implies(!dimsMustBeOne, pfrom(nd.OriginalDims, i+1, len(nd.Dims)) == contiguousOffset)
 //@   loop 0 invariant forall(k, i+1, len(nd.Dims), implies(nd.Dims[k] > 1, nd.Step[k] <= 1 && pfrom(nd.OriginalDims, k+1, len(nd.Dims)) == pfrom(nd.Dims, k+1, len(nd.Dims)) && nd.Offset[k] <= pfrom(nd.Dims, k+1, len(nd.Dims))))
 //@   loop 0 invariant contiguousOffset == pfrom(nd.Dims, i+1, len(nd.Dims)) && iff(dimsMustBeOne, !agree(nd.Dims, nd.OriginalDims, i+1, len(nd.Dims)))
@@ -391,3 +394,33 @@ package data
 //@   loop 0 invariant forall(k, 0, len(nd.Dims), dimOffsets[k] == pfrom(nd.Dims, k+1, len(nd.Dims)) && dimOffsets[k] >= 1)
 //@   loop 0 invariant forall(j, 0, i, res[j] == nd.Impl[nd.Start + rmaddr(nd.Dims, nd.OffsetStep, j, len(nd.Dims), len(nd.Dims))])
 //@   loop 0 invariant implies(i < length, 0 <= nd.Start + rmaddr(nd.Dims, nd.OffsetStep, i, len(nd.Dims), len(nd.Dims)) && nd.Start + rmaddr(nd.Dims, nd.OffsetStep, i, len(nd.Dims), len(nd.Dims)) < len(nd.Impl))
+
+// ---- Apply: a run of values along one axis ----
+// distinct positions of a run with positive step and stride are distinct addresses (induction variable unused)
+// a run with unit step and unit stride is a block of consecutive addresses; position 0 is the base (induction variable unused)
+//@ induct [C01.lemma-run-unit] (base int, j int) z : runaddr(base, j, 1, 1) == base + j
+//@ induct [C01.lemma-run-first] (base int, step int, os int) z : runaddr(base, 0, step, os) == base
+//@ induct [C01.lemma-run-injective] (base int, j1 int, j2 int, step int, os int) z : implies(step >= 1 && os >= 1 && j1 != j2, runaddr(base, j1, step, os) != runaddr(base, j2, step, os))
+//@ func (*nd{t}).Apply(nd, loc, dim, step, vals)
+//@   safety C01
+//@   callsite Set instantiate C01.lemma-idot-upd(old(seq(loc)), seq(loc), seq(nd.OffsetStep), dim, len(loc))
+//@   uses C01.lemma-run-injective, C01.lemma-run-unit, C01.lemma-run-first
+//@   requires 0 <= nd.Start + idot(loc, nd.OffsetStep, len(loc)) && nd.Start + idot(loc, nd.OffsetStep, len(loc)) <= len(nd.Impl)
+//@   requires implies(len(vals) > 0, runaddr(nd.Start + idot(loc, nd.OffsetStep, len(loc)), len(vals)-1, step, nd.OffsetStep[dim]) < len(nd.Impl))
+//@   requires len(nd.Dims) == len(nd.OffsetStep) && len(nd.Offset) == len(nd.OffsetStep) && len(nd.Step) == len(nd.OffsetStep) && len(nd.OriginalDims) == len(nd.OffsetStep) && len(loc) == len(nd.OffsetStep)
+//@   requires 0 <= dim && dim < len(nd.OffsetStep) && step >= 1
+//@   requires forall(k, 0, len(nd.OffsetStep), nd.OffsetStep[k] == nd.Offset[k]*nd.Step[k] && nd.Offset[k] >= 1 && nd.Step[k] >= 1)
+//@   requires loc.id != nd.OffsetStep.id && loc.id != nd.Offset.id && loc.id != nd.Step.id && loc.id != nd.Dims.id && loc.id != nd.OriginalDims.id
+//@   requires nd.Impl.id != vals.id && nd.Impl.id != loc.id && nd.Impl.id != nd.OffsetStep.id && nd.Impl.id != nd.Offset.id && nd.Impl.id != nd.Step.id && nd.Impl.id != nd.Dims.id && nd.Impl.id != nd.OriginalDims.id
+//@   requires vals.id != loc.id && vals.id != nd.OffsetStep.id && vals.id != nd.Offset.id && vals.id != nd.Step.id && vals.id != nd.Dims.id && vals.id != nd.OriginalDims.id
+//@   requires forall(j, 0, len(vals), 0 <= runaddr(nd.Start + idot(loc, nd.OffsetStep, len(loc)), j, step, nd.OffsetStep[dim]) && runaddr(nd.Start + idot(loc, nd.OffsetStep, len(loc)), j, step, nd.OffsetStep[dim]) < len(nd.Impl))
+//@   assigns nd.Impl[*], loc[*]
+//@   callsite copy [C02.apply-contiguous-run] implies(len(vals) > 1, step == 1 && nd.OffsetStep[dim] == 1)
+//@   ensures [C01.apply-footprint] forall(j, 0, len(vals), nd.Impl[runaddr(old(nd.Start + idot(loc, nd.OffsetStep, len(loc))), j, step, nd.OffsetStep[dim])] == vals[j])
+//@   ensures [C01.apply-frame] runaddr(old(nd.Start + idot(loc, nd.OffsetStep, len(loc))), 0, step, nd.OffsetStep[dim]) == old(nd.Start + idot(loc, nd.OffsetStep, len(loc))) && forall(p, 0, len(nd.Impl), implies(!exists(j, 0, len(vals), p == runaddr(old(nd.Start + idot(loc, nd.OffsetStep, len(loc))), j, step, nd.OffsetStep[dim])) && !(step*nd.OffsetStep[dim] == 1 && old(nd.Start + idot(loc, nd.OffsetStep, len(loc))) <= p && p < old(nd.Start + idot(loc, nd.OffsetStep, len(loc))) + len(vals)), nd.Impl[p] == old(nd.Impl[p])))
+//@   ensures [C01.apply-loc-restored] forall(k, 0, len(loc), loc[k] == old(loc[k]))
+//@   loop 0 invariant -1 <= rangeindex && rangeindex < len(vals) && start == old(loc[dim])
+//@   loop 0 invariant forall(k, 0, len(loc), implies(k != dim, loc[k] == old(loc[k])))
+//@   loop 0 invariant implies(rangeindex + 1 < len(vals), 0 <= runaddr(old(nd.Start + idot(loc, nd.OffsetStep, len(loc))), rangeindex + 1, step, nd.OffsetStep[dim]) && runaddr(old(nd.Start + idot(loc, nd.OffsetStep, len(loc))), rangeindex + 1, step, nd.OffsetStep[dim]) < len(nd.Impl))
+//@   loop 0 invariant forall(j, 0, rangeindex + 1, nd.Impl[runaddr(old(nd.Start + idot(loc, nd.OffsetStep, len(loc))), j, step, nd.OffsetStep[dim])] == vals[j])
+//@   loop 0 invariant forall(p, 0, len(nd.Impl), implies(!exists(j, 0, rangeindex + 1, p == runaddr(old(nd.Start + idot(loc, nd.OffsetStep, len(loc))), j, step, nd.OffsetStep[dim])), nd.Impl[p] == old(nd.Impl[p])))
